@@ -21,6 +21,7 @@ import (
 	"sync"
 
 	"github.com/mattn/anko/ast"
+	"github.com/mattn/anko/core"
 	"github.com/mattn/anko/env"
 	"github.com/mattn/anko/parser"
 	"github.com/mattn/anko/vm"
@@ -38,9 +39,10 @@ type Case struct {
 	Variants []string `json:"variants"`
 	// a copy of an environment is independent: Src (= B) in the base after S0, with and without A having run in a copy of the base
 	Pair *struct {
-		S0  string `json:"s0"`
-		A   string `json:"a"`
-		How string `json:"how"` // Copy | DeepCopy
+		S0   string `json:"s0"`
+		A    string `json:"a"`
+		How  string `json:"how"`  // Copy | DeepCopy | Fresh (A runs in a brand-new environment)
+		Core bool   `json:"core"` // the core builtins are imported into every environment involved
 	} `json:"pair"`
 	// outcomes under recorded deviations of the code from the intended design (KNOWN_FINDINGS.json)
 	Alt []struct {
@@ -178,15 +180,26 @@ func runVariants(c Case, src string, stmt ast.Stmt, nconc int, sum *Summary, add
 func runPair(c Case, src string, sum *Summary, add func(Mismatch)) {
 	run := func(withA bool) vmrun.Obs {
 		var base *env.Env
-		o, _ := vmrun.RunSrc(func(e *env.Env) { base = e }, c.Pair.S0)
+		o, _ := vmrun.RunSrc(func(e *env.Env) {
+			base = e
+			if c.Pair.Core {
+				core.Import(e)
+			}
+		}, c.Pair.S0)
 		if o.Cls != "ok" && c.Pair.S0 != "" {
 			return o
 		}
 		if withA {
 			var cp *env.Env
-			if c.Pair.How == "Copy" {
+			switch c.Pair.How {
+			case "Copy":
 				cp = base.Copy()
-			} else {
+			case "Fresh":
+				cp = env.NewEnv()
+				if c.Pair.Core {
+					core.Import(cp)
+				}
+			default:
 				cp = base.DeepCopy()
 			}
 			vmrun.RunIn(cp, c.Pair.A)
@@ -197,7 +210,7 @@ func runPair(c Case, src string, sum *Summary, add func(Mismatch)) {
 	sum.Runs += 4
 	sum.Compared++
 	if !vmrun.SameObs(alone, after, false) {
-		add(Mismatch{ID: c.ID, Kind: "isolation", What: fmt.Sprintf("a run in a %s of the environment (%q) changed what the environment itself yields afterwards", c.Pair.How, c.Pair.A), Src: c.Pair.S0 + " ;; " + src, Exp: alone, Got: after})
+		add(Mismatch{ID: c.ID, Kind: "isolation", What: fmt.Sprintf("a run in %s (%q) changed what the environment itself yields afterwards", map[string]string{"Copy": "a Copy of the environment", "DeepCopy": "a DeepCopy of the environment", "Fresh": "another, brand-new environment"}[c.Pair.How], c.Pair.A), Src: c.Pair.S0 + " ;; " + src, Exp: alone, Got: after})
 	}
 }
 
